@@ -489,7 +489,11 @@ class AttributeStub(Stub):
         self.typ = typ
 
     def render(self, prefix: str = "") -> str:
-        return f"{prefix}{self.name}: {render_annotation(self.typ)}"
+        s = f"{prefix}{self.name}: {render_annotation(self.typ)}"
+        # classes are imported by name into the stub (see build_module_stubs)
+        for module in get_imports_for_annotation(self.typ):
+            s = s.replace(module + ".", "")
+        return s
 
     def __repr__(self) -> str:
         return f"AttributeStub({self.name}, {self.typ})"
@@ -856,6 +860,10 @@ def build_module_stubs(entries: Iterable[FunctionDefinition]) -> Dict[str, Modul
         # Import TypedDict, if needed.
         if entry.typed_dict_class_stubs:
             imports["mypy_extensions"].add("TypedDict")
+            # ...and whatever the fields of the generated classes refer to
+            for class_stub in entry.typed_dict_class_stubs:
+                for attribute_stub in class_stub.attribute_stubs:
+                    imports.merge(get_imports_for_annotation(attribute_stub.typ))
         func_stub = FunctionStub(
             name, entry.signature, entry.kind, list(imports.keys()), entry.is_async
         )
